@@ -165,6 +165,7 @@ def run_route(ctx, route, name, path, seed, nsteps):
     orep = make_observation_representation(rep_name, twin.observation_space)
     srep_ok = twin.state_space.can_be_represented
     features = set()
+    scribble = (seed + len(name)) % 2 == 0
 
     def check_obs(got, o, what):
         # the expectation comes from a representation object made now, after the adapter has answered (other representation
@@ -179,6 +180,13 @@ def run_route(ctx, route, name, path, seed, nsteps):
         if not okc or not inside:
             ctx.violation('adapter', f'{what}.outside_advertised_space', f'{label}: {what} observation outside the advertised gym space',
                           'gym_case', payload)
+        if scribble:
+            # a hostile caller edits the arrays it was handed, in place (normalisation, augmentation ...): what the adapter
+            # returns later must still be the current observation (nothing handed out may be shared with a cache)
+            for v in got.values():
+                if isinstance(v, np.ndarray) and v.flags.writeable:
+                    v.fill(97)
+            ctx.hit('returned_arrays.scribbled')
         return True
 
     ok, got = call_real(env.reset)
